@@ -12,8 +12,8 @@ import (
 
 func init() {
 	eng.Register(&eng.Check{
-		ID: "C04",
-		Rule: "differential on the implementation over the C01 match space: every (selector, literal, document) triple (incl. absent keys, ill-typed literals, nil, non-collections) x the four operator pairs; the negated operator must error exactly when the positive one does and otherwise return its negation; `S contains v` / `S not contains v` must equal `v in S` / `v not in S` (same outcome on every document and identical AST); each must equal not(...) around its counterpart. Distinct by construction; non-trivial = the positive form did not fail in selector resolution (reference walk resolved or hit the absent-key table).",
+		ID:          "C04",
+		Rule:        "differential on the implementation over the C01 match space: every (selector, literal, document) triple (incl. absent keys, ill-typed literals, nil, non-collections) x the four operator pairs; the negated operator must error exactly when the positive one does and otherwise return its negation; `S contains v` / `S not contains v` must equal `v in S` / `v not in S` (same outcome on every document and identical AST); each must equal not(...) around its counterpart. Distinct by construction; non-trivial = the positive form did not fail in selector resolution (reference walk resolved or hit the absent-key table).",
 		Assumptions: []string{"outcome classes only (T/F/E); error texts never compared", "bounded: selector / literal / document alphabets of C01"},
 		Run:         runC04,
 	})
